@@ -592,6 +592,9 @@ func (s *State) exec(th *Thread, fr *Frame, in ssa.Instruction) {
 		}
 		s.next(fr)
 
+	case *ssa.Select:
+		s.execSelect(th, fr, x)
+
 	case *ssa.MakeChan:
 		// channels exist only in native replay code (prelude scheduler); opaque here
 		s.set(fr, x, NativeV{"chan"})
@@ -1092,7 +1095,12 @@ func (s *State) valuesEqual(a, b Value) *Expr {
 	case MapV:
 		y := b.(MapV)
 		return Bool(x.Obj == y.Obj)
+	case ClosureNativeV:
+		return False
 	case FuncV:
+		if _, ok := b.(ClosureNativeV); ok {
+			return False
+		}
 		y := b.(FuncV)
 		return Bool(x.Fn == nil && x.B == nil && y.Fn == nil && y.B == nil)
 	case AggV:
@@ -1198,6 +1206,16 @@ func (s *State) invoke(th *Thread, fr *Frame, fn Value, args []Value, call *ssa.
 		}
 		stats.calls++
 		s.pushCall(f.Fn, args, f.Env, rk)
+	case ClosureNativeV:
+		h, ok := intrinsics[f.Name]
+		if !ok {
+			panic(engineErr("no native handler " + f.Name))
+		}
+		res, done := h(s, th, fr, append(append([]Value(nil), f.Env...), args...), call, rk)
+		if !done {
+			return
+		}
+		s.finishInline(th, fr, call, res, rk)
 	case NativeV:
 		name := f.X.(string)
 		h, ok := intrinsics[name]
